@@ -472,7 +472,7 @@ def dict_probe_case(case):
     def vv(v):
         if v == -1:
             raise TraitError("bad value")
-        return v
+        return int(v) if (mode == "coerce" and isinstance(v, str)) else v          # a converting value trait (CInt)
     for trial in range(int(case.get("trials", 400))):
         mode = rnd.choice(["coerce", "identity"])
         start = {kv(k): rnd.randint(0, 5) for k in rnd.sample([1, 2, "1", "a", "b"], rnd.randint(0, 3))}
@@ -483,7 +483,7 @@ def dict_probe_case(case):
         keys = [1, 2, "1", "a", "b", "c", "bad"]
 
         def pairs(n):
-            return [(rnd.choice(keys), rnd.choice([0, 1, 2, 3, -1, 7])) for _ in range(n)]
+            return [(rnd.choice(keys), rnd.choice([0, 1, 2, 3, -1, 7, "5", "8"])) for _ in range(n)]
         op = rnd.choice(["update-map", "update-pairs", "update-pairs", "update-unhashable", "ior", "setitem", "delitem", "pop", "pop-default", "popitem", "setdefault", "clear"])
         desc = None
         try:
